@@ -835,6 +835,144 @@ Proof. intros He Hr. apply (I_idle _ _ _ (inv_of_exclusive h He Hr)). Qed.
 End AcceptProofs.
 
 (* ---------------------------------------------------------------------------------------------- *)
+(* Refinement: the two-step accept implements the ATOMIC consume-on-accept specification            *)
+(* ---------------------------------------------------------------------------------------------- *)
+Section Refinement.
+Context {R Q : Type}.
+Notation state := (state R).
+Notation op := (op R Q).
+Notation mon := (mon R).
+Implicit Types (s sp : state) (h hist : list op) (m : mon) (o : op).
+
+Definition core (s : state) (c : N) : option (N * option R) :=
+  match conn_of s c with Some cs => Some (cs_port cs, cs_ctx cs) | None => None end.
+
+(* impl state s, spec state sp, monitor m: same connections with the same contexts; the spec's map
+   is the implementation's minus the records that are looked up but not yet removed *)
+Record Rel s sp m : Prop := {
+  R_conns : forall c, core s c = core sp c;
+  R_audit : forall p, alookup N.eqb p (audit sp) =
+                      match phase_of m p with Looked _ => None | _ => alookup N.eqb p (audit s) end;
+}.
+
+Lemma rel_init : Rel (@init R) init mon0.
+Proof. constructor; intros; reflexivity. Qed.
+
+Lemma core_none s c : core s c = None <-> conn_of s c = None.
+Proof. unfold core. destruct (conn_of s c); split; intros; congruence. Qed.
+
+Lemma refine_step hist s sp m o :
+  Inv hist s m -> Rel s sp m ->
+  bad m = false -> bad (mstep m o) = false -> (forall c, o <> Remove c false) ->
+  Rel (fst (step s o)) (fst (spec_step sp o)) (mstep m o) /\ snd (step s o) = snd (spec_step sp o).
+Proof.
+  intros I [Rc Ra] Hb Hb' Hrm.
+  destruct o as [c0 p0 e0|c0 p0|c0 ok|c0 r0|c0].
+  - (* KRecord *)
+    cbn [mstep] in Hb' |- *.
+    destruct (phase_of m p0) eqn:P0; try (cbn in Hb'; congruence);
+      destruct (alookup N.eqb c0 (seen m)) eqn:S0; try (cbn in Hb'; congruence).
+    cbn [step spec_step fst snd]. split; [|reflexivity]. constructor; cbn [audit conns].
+    + intros c. apply Rc.
+    + intros p. rewrite phase_of_mset, !acc_lookup_insert. neq_case p p0 E; auto; apply Ra.
+  - (* Lookup *)
+    revert Hb'. cbn [mstep].
+    destruct (alookup N.eqb c0 (seen m)) eqn:S0; intros Hb'; [cbn in Hb'; congruence|].
+    pose proof (seen_none_conn _ _ _ _ I S0) as C0.
+    assert (C0' : conn_of sp c0 = None) by (apply core_none; rewrite <- Rc; apply core_none; auto).
+    rewrite step_lookup_new by auto. cbn [spec_step]. rewrite C0'. cbn [fst snd].
+    assert (X : alookup N.eqb p0 (audit sp) = alookup N.eqb p0 (audit s)).
+    { rewrite Ra. revert Hb'. destruct (phase_of m p0) eqn:P0; auto. intros Hb'. cbn in Hb'. congruence. }
+    split; [|cbn [step]; rewrite C0; reflexivity].
+    revert Hb'. destruct (phase_of m p0) as [|c1 e1|c1] eqn:P0; intros Hb'.
+    + (* Idle *)
+      constructor; cbn [audit conns].
+      * intros c. unfold core. rewrite !conn_of_mk, !acc_lookup_insert. neq_case c c0 E.
+        -- cbn. rewrite X. reflexivity.
+        -- apply Rc.
+      * intros p. rewrite phase_of_msee, acc_lookup_remove. neq_case p p0 E.
+        -- subst. rewrite P0. symmetry. apply (I_idle _ _ _ I); auto.
+        -- apply Ra.
+    + (* Written *)
+      revert Hb'. neq_case c1 c0 E1; intros Hb'; [|cbn in Hb'; congruence]. subst c1.
+      constructor; cbn [audit conns].
+      * intros c. unfold core. rewrite !conn_of_mk, !acc_lookup_insert. neq_case c c0 E.
+        -- cbn. rewrite X. reflexivity.
+        -- apply Rc.
+      * intros p. rewrite phase_of_msee, phase_of_mset, acc_lookup_remove. neq_case p p0 E; auto; apply Ra.
+    + cbn in Hb'. congruence.
+  - (* Remove *)
+    destruct ok; [|exfalso; apply (Hrm c0); reflexivity].
+    cbn [step spec_step mstep fst snd].
+    destruct (conn_of s c0) as [cs0|] eqn:C0.
+    2:{ assert (S0 : alookup N.eqb c0 (seen m) = None).
+        { destruct (alookup N.eqb c0 (seen m)) as [p|] eqn:S0; auto.
+          apply (I_seen _ _ _ I) in S0. destruct S0 as [cs [K _]]. congruence. }
+        rewrite S0. split; [constructor; auto|reflexivity]. }
+    assert (S0 : alookup N.eqb c0 (seen m) = Some (cs_port cs0)).
+    { apply (I_seen _ _ _ I). exists cs0; auto. }
+    rewrite S0. destruct (cs_pending cs0) eqn:Pd.
+    + pose proof (I_pending _ _ _ I _ _ C0 Pd) as P0. rewrite P0, N.eqb_refl. cbn [fst snd].
+      split; [|reflexivity]. constructor; cbn [audit conns].
+      * intros c. pose proof (Rc c) as K. unfold core in K |- *.
+        rewrite conn_of_mk, acc_lookup_insert. neq_case c c0 E.
+        -- subst. rewrite C0 in K. cbn [set_pending cs_port cs_ctx]. exact K.
+        -- exact K.
+      * intros p. rewrite phase_of_mset, acc_lookup_remove. neq_case p (cs_port cs0) E.
+        -- subst. rewrite Ra, P0. reflexivity.
+        -- apply Ra.
+    + assert (M : (match phase_of m (cs_port cs0) with
+                   | Looked c' => if c' =? c0 then mset m (cs_port cs0) Idle else m
+                   | _ => m end) = m).
+      { destruct (phase_of m (cs_port cs0)) eqn:P; auto.
+        neq_case c c0 E; auto. subst.
+        destruct (I_looked _ _ _ I _ _ P) as [cs [G1 [G2 G3]]]. rewrite C0 in G1. inversion G1; subst.
+        congruence. }
+      rewrite M. split; [constructor; auto|reflexivity].
+  - (* Request *)
+    cbn [step spec_step mstep]. pose proof (Rc c0) as K. unfold core in K.
+    destruct (conn_of s c0) as [cs|] eqn:C0; destruct (conn_of sp c0) as [cs'|] eqn:C0'; try discriminate.
+    + inversion K. cbn [fst snd]. split; [constructor; auto|]. rewrite H1. reflexivity.
+    + cbn [fst snd]. split; [constructor; auto|reflexivity].
+  - (* Close *)
+    cbn [step spec_step mstep fst snd]. split; [constructor; auto|reflexivity].
+Qed.
+
+Lemma refine_run h : forall hist s sp m,
+  Inv hist s m -> Rel s sp m ->
+  bad m = false -> bad (mrun m h) = false -> removes_ok h = true ->
+  Rel (final s h) (fst (spec_run sp h)) (mrun m h) /\ outs s h = snd (spec_run sp h).
+Proof.
+  induction h as [|o t IH]; intros hist s sp m I Rl Hb Hb' Hr.
+  - cbn. split; auto.
+  - apply removes_ok_cons in Hr. destruct Hr as [Hr1 Hr2].
+    pose proof (mrun_good_first _ _ _ Hb') as Hb1.
+    destruct (refine_step hist s sp m o I Rl Hb Hb1 Hr1) as [Rl1 Ho].
+    pose proof (inv_step hist s m o I Hb Hb1 Hr1) as I1.
+    rewrite mrun_cons in Hb' |- *.
+    destruct (IH _ _ _ _ I1 Rl1 Hb1 Hb' Hr2) as [Rl2 Ho2].
+    rewrite final_cons, outs_cons. cbn [spec_run].
+    destruct (spec_step sp o) as [sp1 o1] eqn:E1. cbn [fst snd] in *.
+    destruct (spec_run sp1 t) as [sp2 o2] eqn:E2. cbn [fst snd] in *.
+    split; auto. rewrite Ho, Ho2. reflexivity.
+Qed.
+
+(* under every exclusive schedule in which map deletes succeed, the real two-step accept and the
+   atomic specification decide every request with the same context and end with the same contexts *)
+Lemma two_step_refines_atomic h :
+  exclusive h = true -> removes_ok h = true ->
+  outs init h = snd (spec_run init h) /\
+  forall c, ctx_in (final init h) c = ctx_in (fst (spec_run init h)) c.
+Proof.
+  intros He Hr. unfold exclusive in He. apply negb_true_iff in He.
+  destruct (refine_run h [] init init mon0 inv_init rel_init eq_refl He Hr) as [[Rc _] Ho].
+  split; auto. intros c. pose proof (Rc c) as K. unfold core in K. unfold ctx_in.
+  destruct (conn_of (final init h) c); destruct (conn_of (fst (spec_run init h)) c); try discriminate; auto.
+  inversion K. reflexivity.
+Qed.
+End Refinement.
+
+(* ---------------------------------------------------------------------------------------------- *)
 (* Tie to the request-path model of C01 (Model/Server.v)                                            *)
 (* ---------------------------------------------------------------------------------------------- *)
 From GPA Require Import Server ServerProofs.
